@@ -1,7 +1,161 @@
 import Driver.Util
+import Model.Submit
+/-! Driver for engine `submit` (C09): function-mode diff of the real `Log.Handler()` with
+`Submit.handle` / `Submit.setRoots` / `Submit.getRoots` (the definitions `Props/C09.lean` is about).
+
+  scenario <name> <startNs> <limitNs>
+  cert <id> <sha256(der)> <sha256(spki)> <ctEku 0|1>
+  setroots <ids|-> <bundle parses 0|1> <ok|err>
+  getroots <status> <fingerprints in order|->
+  restart
+  sub <name> ep=… m=… body=… chain=<ids|-> parses= na= eku= linked= anchor=<id|-> anchorsub= poison= defang= tbs=<h>,<h>
+        => <status> grew=<n> <none | x509 <sha256(cert)> | pre <sha256(tbs)> <ikh> <sha256(precert)>> iss=<fingerprints|->
+  end
+
+Certificates are opaque to the model: the driver uses the SHA-256 of a DER string wherever the
+model has the string (`Cert.der`, `Pending.certificate`, …); `tbs=` are the hashes of the harness'
+own DER-level defang (without / with the issuer swap). -/
 namespace Driver.Submit
-/-- stub: engine not implemented yet -/
+open _root_.Submit
+
+structure St where
+  t : Driver.Tally := {}
+  cfg : Config := ⟨0, 0⟩
+  s : State := {}
+  certs : List (String × Cert) := []
+  name : String := ""
+
+def St.bad (st : St) (n : Nat) (msg : String) : IO St := do
+  IO.println s!"MISMATCH {n} {st.name}: {msg}"
+  return { st with t := { st.t with mismatches := st.t.mismatches + 1 } }
+
+def St.good (st : St) (branch : String) : St :=
+  { st with t := { st.t.bump branch with ok := st.t.ok + 1 } }
+
+def lookup (st : St) (id : String) : Option Cert := (st.certs.find? (·.1 == id)).map (·.2)
+
+def ids (s : String) : List String := if s == "-" then [] else s.splitOn ","
+
+def kv (ws : List String) (k : String) : Option String :=
+  (ws.find? (·.startsWith (k ++ "="))).map fun w => (w.drop (k.length + 1)).toString
+
+def bit (s : String) : Option Bool := if s == "1" then some true else if s == "0" then some false else none
+
+def hexList (s : String) : Option (List Bytes) := (ids s).mapM Bytes.ofHex
+
+def showHexList (l : List Bytes) : String := if l.isEmpty then "-" else ",".intercalate (l.map Bytes.toHex)
+
+def parseReq (st : St) (ws : List String) : Option Req := do
+  let ep ← match ← kv ws "ep" with
+    | "add-chain" => some Endpoint.addChain
+    | "add-pre-chain" => some Endpoint.addPreChain
+    | _ => none
+  let m := match ← kv ws "m" with
+    | "POST" => Method.post
+    | "OPTIONS" => Method.options
+    | _ => Method.other
+  let body ← match ← kv ws "body" with
+    | "ok" => some BodyFact.ok
+    | "malformed" => some BodyFact.malformed
+    | "toolarge" => some BodyFact.tooLarge
+    | _ => none
+  let chain ← (ids (← kv ws "chain")).mapM (lookup st)
+  let anchorId ← kv ws "anchor"
+  let anchor ← if anchorId == "-" then some (⟨[], [], false⟩ : Cert) else lookup st anchorId
+  let poison ← match ← kv ws "poison" with
+    | "none" => some Poison.none
+    | "valid" => some Poison.valid
+    | "invalid" => some Poison.invalid
+    | _ => none
+  let tbs := (← kv ws "tbs").splitOn ","
+  let tbsOf (s : String) : Option Bytes := if s == "-" then some [] else Bytes.ofHex s
+  let (t1, t2) ← match tbs with
+    | [a, b] => some (← tbsOf a, ← tbsOf b)
+    | _ => none
+  pure { endpoint := ep, method := m, body := body, chain := chain, parses := ← bit (← kv ws "parses"),
+         notAfter := ← (← kv ws "na").toInt?, serverAuth := ← bit (← kv ws "eku"), linked := ← bit (← kv ws "linked"),
+         anchor := anchor, anchorSubmitted := ← bit (← kv ws "anchorsub"), poison := poison,
+         defangOk := ← bit (← kv ws "defang"), tbsPlain := t1, tbsReissued := t2 }
+
+/-- what the model says was stored, in the format of the trace -/
+def showStored (o : Option Outcome) : String × String :=
+  match o with
+  | some (.admit e _) =>
+    if e.isPrecert then (s!"pre {Bytes.toHex e.certificate} {Bytes.toHex e.issuerKeyHash} {Bytes.toHex e.preCertificate}", showHexList e.issuers)
+    else (s!"x509 {Bytes.toHex e.certificate}", showHexList e.issuers)
+  | _ => ("none", "-")
+
+def checkName : Check → String
+  | .readBody => "body-too-large" | .parseJSON => "body-malformed" | .nonEmpty => "empty-chain"
+  | .validate => "validate-chain" | .poison => "poison-invalid" | .hasIssuer => "precert-without-issuer"
+  | .preIssuerHasIssuer => "signing-cert-without-issuer" | .buildTBS => "defang-fails" | .endpointType => "wrong-endpoint"
+
+def validateWhy (c : Config) (roots : List Bytes) (r : Req) : String :=
+  if !r.parses then "unparsable"
+  else if r.notAfter < c.start then "before-start"
+  else if !(r.notAfter < c.limit) then "at-or-after-limit"
+  else if !r.serverAuth then "no-serverauth"
+  else if !r.linked then "no-path"
+  else if !(roots.contains r.anchor.der) then "root-not-accepted"
+  else "?"
+
+def branchOf (c : Config) (roots : List Bytes) (r : Req) (resp : Response) : String :=
+  match resp.outcome with
+  | none => s!"method:{resp.status}"
+  | some (.reject .validate) => s!"reject:validate-chain:{validateWhy c roots r}"
+  | some (.reject k) => s!"reject:{checkName k}"
+  | some (.admit e ch) =>
+    if !e.isPrecert then s!"admit:x509:len{ch.length}"
+    else if usesPreIssuer ch then s!"admit:precert-signing-cert:len{ch.length}"
+    else s!"admit:precert:len{ch.length}"
+
+def onLine (st : St) (n : Nat) (l : String) : IO St := do
+  let st := { st with t := { st.t with lines := st.t.lines + 1 } }
+  match Driver.words l with
+  | ["scenario", name, a, b] =>
+    match a.toInt?, b.toInt? with
+    | some a, some b => return { (st.good "scenario") with cfg := ⟨a, b⟩, s := {}, certs := [], name := name }
+    | _, _ => st.bad n s!"bad scenario line: {l}"
+  | ["cert", id, fp, spki, ct] =>
+    match Bytes.ofHex fp, Bytes.ofHex spki, bit ct with
+    | some fp, some spki, some ct => return { (st.good "cert") with certs := (id, ⟨fp, spki, ct⟩) :: st.certs }
+    | _, _, _ => st.bad n s!"bad cert line: {l}"
+  | ["setroots", idl, ok, res] =>
+    match (ids idl).mapM (lookup st), bit ok with
+    | some cs, some ok =>
+      let pem : Option (List Bytes) := if ok then some (cs.map (·.der)) else none
+      let (s', good) := setRoots st.s pem
+      let model := if good then "ok" else "err"
+      let st := { st with s := s' }
+      if model == res then return st.good s!"setroots:{res}"
+      else st.bad n s!"SetRootsFromPEM: model={model} impl={res}"
+    | _, _ => st.bad n s!"bad setroots line: {l}"
+  | ["restart"] => return st.good "restart"
+  | ["getroots", status, fps] =>
+    let model := showHexList (getRoots st.s)
+    if status == "200" && fps == model then return st.good (if (getRoots st.s).isEmpty then "getroots:empty" else "getroots")
+    else st.bad n s!"get-roots: model=200 {model} impl={status} {fps}"
+  | ["end"] => return st.good "end"
+  | "sub" :: name :: rest =>
+    let (facts, impl) := rest.span (· != "=>")
+    match parseReq st facts, impl with
+    | some r, _ :: status :: grew :: more =>
+      let (s', resp) := handle st.cfg st.s r
+      let (stored, iss) := showStored resp.outcome
+      let stored := if resp.status == 200 then stored else "none"
+      let iss := if resp.status == 200 then iss else "-"
+      let modelLine := s!"{resp.status} grew={s'.pool.length - st.s.pool.length} {stored} iss={iss}"
+      let implLine := " ".intercalate (status :: grew :: more)
+      let b := branchOf st.cfg st.s.roots r resp
+      let st := { st with s := s' }
+      if modelLine == implLine then return st.good b
+      else st.bad n s!"{name} [{b}]: model={modelLine} impl={implLine}"
+    | _, _ => st.bad n s!"unparsable sub line: {l}"
+  | [] => return st
+  | _ => st.bad n s!"bad-line: {l}"
+
 def main : IO UInt32 := do
-  IO.println "MISMATCH 0 engine submit has no driver yet"
+  let st ← Driver.foldLines ({} : St) onLine
+  IO.println st.t.summary
   return 0
 end Driver.Submit
